@@ -70,6 +70,9 @@ mod listing {
         "if :; then echo \\\\; fi",
     ];
     pub const CONDS: &[&str] = &["EXIT", "HUP", "INT", "QUIT", "TERM", "USR1", "USR2"];
+    /// condition numbers of the virtual system (yash-env/src/system/virtual/signal.rs; extracted for the model as
+    /// `ListingTables.virtualSignals`); a wrong number here shows as a model/impl disagreement
+    pub const COND_NUMBERS: &[(&str, u32)] = &[("EXIT", 0), ("HUP", 1), ("INT", 2), ("QUIT", 3), ("TERM", 15), ("USR1", 124), ("USR2", 125)];
     pub const OPTS: &[&str] = &["clobber", "glob", "hashondefinition", "ignoreeof", "notify", "pipefail", "unset", "vi"];
     const KEYWORDS: &[&str] = &["if", "then", "else", "elif", "fi", "do", "done", "case", "esac", "while", "until", "for", "in", "function", "{", "}", "!", "[[", "]]", "select", "namespace"];
 
@@ -258,6 +261,11 @@ mod listing {
                     push_unique(&mut out.aliases, name);
                 }
                 ["t", c, a] => sc.push_str(&format!("trap -- {} {}\n", sq(&dec_str(a)?), c)),
+                // the condition given by NUMBER (0 = EXIT; signal numbers of the virtual system)
+                ["tn", _c, n, a] => {
+                    let n: u32 = n.parse().ok()?;
+                    sc.push_str(&format!("trap -- {} {}\n", sq(&dec_str(a)?), n))
+                }
                 ["m", m] => sc.push_str(&format!("umask {m}\n")),
                 ["ms", m] => {
                     if m.is_empty() || !m.chars().all(|c| "ugoarwxXs+-=,".contains(c)) {
@@ -365,13 +373,15 @@ mod listing {
         ("As", "A", "(alias)"),
         ("Vs", "V", "(typeset -p)"),
         ("Tq", "T", "SAVEDQZJX=$(trap); echo \"$SAVEDQZJX\"; unset -v SAVEDQZJX"),
+        // `command -v` on the alias names: prints command lines that redefine the aliases (docs/builtins/command.md)
+        ("Cv", "Ac", "command -v -- @a"),
         // after `set -o portable` (if the history asks for it) and a second `snap`
         ("O", "O", "set +o"),
         ("Oh", "-", "set -o"),
         ("Os", "O", "(set +o)"),
     ];
     /// observation order (texts the model predicts)
-    const OBS: &[&str] = &["A", "V", "X", "R", "S", "T", "U", "O", "Ao", "Vo", "Tc", "Oh", "Us", "Ts", "Tk", "Tq", "As", "Vs", "Os"];
+    const OBS: &[&str] = &["A", "V", "X", "R", "S", "T", "U", "O", "Ao", "Vo", "Tc", "Oh", "Us", "Ts", "Tk", "Tq", "As", "Vs", "Os", "Cv"];
 
     fn var_fields(l: &str) -> Option<(String, String, String)> {
         // "V <name> <xr> <value>"
@@ -387,6 +397,10 @@ mod listing {
         for l in s1 {
             let ok = match (k, l.as_bytes()[0] as char) {
                 ("Fr", 'F') => l.split(' ').nth(2) != Some("1") || has(l),
+                ("Ac", 'L') => {
+                    let name = l.split(' ').nth(1).and_then(dec_str).unwrap_or_default();
+                    KEYWORDS.contains(&name.as_str()) || has(l)
+                }
                 ("A", 'L') | ("T", 'T') | ("U", 'M') | ("Us", 'M') | ("O", 'O') | ("F", 'F') => has(l),
                 ("V", 'V') => {
                     let (n, _, _) = var_fields(l).ok_or("snapshot")?;
@@ -611,6 +625,17 @@ mod listing {
                         re.push_str(&format!("alias -- {l}\n"));
                     }
                 }
+                "Ac" => {
+                    // the lines are commands already; a reserved word is printed as the bare word (not an alias line)
+                    let Some(lines) = logical_lines(text) else {
+                        failures.push((format!("FAIL:{key}:listing-does-not-lex"), false));
+                        continue;
+                    };
+                    for l in lines.iter().filter(|l| l.starts_with("alias ")) {
+                        re.push_str(l);
+                        re.push('\n');
+                    }
+                }
                 "U" | "Us" => re.push_str(&format!("umask {text}")),
                 _ => {
                     re.push_str(text);
@@ -708,7 +733,7 @@ mod listing {
         loop {
             let mut s = random_string(r, CORE, max);
             // one string in eight carries a control character, DEL, a Unicode blank / separator or a bidi mark
-            if max >= 4 && r.chance(1, 8) {
+            if max >= 3 && r.chance(1, 8) {
                 let cs: Vec<char> = s.chars().collect();
                 let i = r.below(cs.len() + 1);
                 s = cs[..i].iter().chain(std::iter::once(r.pick(EXOTIC))).chain(cs[i..].iter()).collect();
@@ -805,7 +830,16 @@ mod listing {
                     let glob = bare(&name) && bare(&value) && name.contains('[') && value.contains(']');
                     ops.push(format!("{}:{}:{}", if glob { "lg" } else { "l" }, h(&name), h(&value)));
                 }
-                8 => ops.push(format!("t:{}:{}", r.pick(CONDS), h(&weird(r, 8, true)))),
+                8 => {
+                    let c = *r.pick(CONDS);
+                    if r.chance(1, 3) {
+                        // the model checks (name, number) against the table extracted from virtual/signal.rs
+                        let n = COND_NUMBERS.iter().find(|p| p.0 == c).map(|p| p.1).unwrap_or(0);
+                        ops.push(format!("tn:{c}:{n}:{}", h(&weird(r, 8, true))))
+                    } else {
+                        ops.push(format!("t:{c}:{}", h(&weird(r, 8, true))))
+                    }
+                }
                 9 => {
                     if r.chance(1, 2) {
                         ops.push(format!("m:{:03o}", r.below(512)))
